@@ -370,12 +370,15 @@ def rule_replace_and_slots(check, rule, classes=UPGRADED, only_base_overrides=Fa
                 for atom, pol in p_.lits:
                     if atom[0] not in ('truthy', 'isnone'):
                         continue
-                    t_ = atom[1]
                     nm = None
-                    if t_[0] == 'P' and t_[1] in base_kw:
-                        nm = t_[1]
-                    elif t_[0] == 'M' and t_[2] in ('pop', 'get') and t_[3] and t_[3][0][0] == 'K' and t_[3][0][1] in base_kw:
-                        nm = t_[3][0][1]
+                    # the override itself, or the override after it went through a helper (`helper(kwargs.pop('parameters', None))`)
+                    for t_ in subterms(atom[1]):
+                        if not isinstance(t_, tuple) or not t_:
+                            continue
+                        if t_[0] == 'P' and t_[1] in base_kw:
+                            nm = t_[1]
+                        elif t_[0] == 'M' and t_[2] in ('pop', 'get') and t_[3] and t_[3][0][0] == 'K' and t_[3][0][1] in base_kw:
+                            nm = t_[3][0][1]
                     if nm is None:
                         continue
                     kb = '%s|replace|base-override:%s' % (ci.key, nm)
